@@ -13,7 +13,7 @@ import (
 	"verifh/vk"
 )
 
-var targets = []hwd.Target{hwd.TF0, hwd.TM, hwd.TXA, hwd.TG2own, hwd.TG2hw, hwd.TVv, hwd.TVp}
+var targets = []hwd.Target{hwd.TF0, hwd.TM, hwd.TXA, hwd.TG2own, hwd.TG2hw, hwd.TVv, hwd.TVp, hwd.TLm, hwd.TLm2}
 
 const ownPkg = "verifh/hworld"
 
@@ -31,6 +31,9 @@ func alphabet() []hwd.Op {
 	for _, k := range []hwd.Kind{hwd.KApplyA, hwd.KReturn, hwd.KWhenReturn} {
 		a = append(a, hwd.Op{B: 0, T: hwd.TM, K: k, Outer: true}) // through the struct-level handle of the first Struct(..) lookup
 	}
+	// two unexported methods of one struct
+	add(hwd.TLm, false, hwd.KApplyA, hwd.KReturn)
+	add(hwd.TLm2, false, hwd.KReturn)
 	// one type through a value instance and through a pointer instance
 	add(hwd.TVv, false, hwd.KApplyA, hwd.KReturn)
 	add(hwd.TVp, false, hwd.KReturn)
